@@ -294,4 +294,49 @@ def run_meetoperand(ctx):
     else:
         res.ok(key, b.where(), "%d operand-returning path(s), all under `first == second` or the `any` arm" % n)
     res.floor(n, 1, "operand-returning paths in conjoin")
+    # the constants conjoin may answer with: `!` (no common subtype). `any` is the meet only of (any, any), which the equality arm
+    # answers with a clone; a constant `any` (or any other constant type) elsewhere widens the meet above one operand, e.g.
+    # conjoin(int, any) = any makes ((int)->int | (any)->int).params() accept a string
+    from ..model import aggregates
+    own_bodies = [b] + list(lib.closures_of(b.id))
+    consts = []
+    for ob in own_bodies:
+        both_any = None
+        if ob is b:
+            # blocks that can only be reached through the `Any` edge of a switch on S *and* the `Any` edge of a switch on O
+            def only_through(edges):
+                seen = {0}
+                work = [0]
+                while work:
+                    u = work.pop()
+                    for v in b.succ[u]:
+                        if (u, v) in edges or v in seen:
+                            continue
+                        seen.add(v)
+                        work.append(v)
+                return set(range(len(b.blocks))) - seen
+            edges = {"S": set(), "O": set()}
+            for sw in enum_switches(b, "variable::r#type::Type"):
+                if "Any" in sw["arms"]:
+                    sd = "".join(sorted(flat(p.of_place(sw["place"]["l"], sw["place"]["p"]))))
+                    if sd in edges and sw["arms"]["Any"] != sw["otherwise"] and list(sw["arms"].values()).count(sw["arms"]["Any"]) == 1:
+                        edges[sd].add((sw["bb"], sw["arms"]["Any"]))
+            both_any = (only_through(edges["S"]) if edges["S"] else set()) & (only_through(edges["O"]) if edges["O"] else set())
+        for bb, st in aggregates(ob, "variable::r#type::Type"):
+            rv = st["rv"]
+            if rv.get("ops"):
+                continue        # built from parts
+            if rv["variant"] == "Never":
+                continue
+            if both_any and bb in both_any:
+                continue
+            consts.append((ob, bb, st))
+    key = "meetoperand:conjoin|constants"
+    if consts:
+        ob, bb, st = consts[0]
+        res.bad(key, "Type::conjoin answers with the constant type `%s` outside an arm where both operands are `any`: the meet of a type "
+                     "with `any` is that type - a wider answer lets a union of function types accept arguments one member rejects"
+                % st["rv"]["variant"].lower(), ob.where(st.get("line")))
+    else:
+        res.ok(key, b.where(), "the only constant answer is `!`")
     return res
